@@ -201,6 +201,43 @@ G_REMOVE_SPEC = """
 """
 
 
+
+def _locals(fn, ds=False):
+    """names of the locals holding the indices of s, p, o (and g): the ghost blocks are written with is/ip/io/ig and
+    renamed to whatever the code calls them, so that renaming a local is not a lost anchor"""
+    names = {}
+    for param, default in (("s", "is"), ("p", "ip"), ("o", "io")):
+        m = re.search(r"let (?:Some\()?(\w+)\)? = self\.terms\.(?:ensure_index|get_index)\(%s\)" % param, fn)
+        if not m:
+            raise rsx.LostAnchor("index local for parameter %s not found" % param)
+        names[default] = m.group(1)
+    if ds:
+        m = re.search(r"let (?:Some\()?(\w+)\)? = (?:match g|self\.terms\.get_graph_name_index\(g\))", fn)
+        if not m:
+            raise rsx.LostAnchor("index local for the graph name not found")
+        names["ig"] = m.group(1)
+    return names
+
+
+_G = {}
+
+
+def _ins(fn, needle, ghost, **kw):
+    return rsx.insert_before_line(fn, needle, _ren(ghost, _G), **kw)
+
+
+def _use(fn, ds=False):
+    _G.clear()
+    _G.update(_locals(fn, ds))
+
+
+def _ren(text, names):
+    for old, new in names.items():
+        if old != new:
+            text = re.sub(r"(?<![\w.])%s(?![\w(])" % old, new, text)
+    return text
+
+
 def _sig_rewrites(fn, info, ds=False):
     """R0: crate type aliases expanded, trait-impl method moved into an inherent impl (`pub` added by the assembler)."""
     if ds:
@@ -230,8 +267,9 @@ def build_graph(repo, which="all"):
     fi = _sig_rewrites(fi, info)
     fr = _sig_rewrites(fr, info)
     fi = rsx.add_spec(fi, G_INSERT_SPEC)
+    _use(fi)
     fi = _ensure_steps(fi, "spo")
-    fi = rsx.insert_before_line(fi, "self.spo.insert(", """
+    fi = _ins(fi, "self.spo.insert(", """
         proof {
             let m0 = old(self).terms.t2i();
             let m3 = self.terms.t2i();
@@ -250,10 +288,11 @@ def build_graph(repo, which="all"):
             assert(rot1(t) == [ip, io, is]) by { assert(rot1(t)@ =~= [ip, io, is]@); }
             assert(rot2(t) == [io, is, ip]) by { assert(rot2(t)@ =~= [io, is, ip]@); }
         }""", expect_count=1)
-    fi = rsx.insert_before_line(fi, LASTFALSE, """
+    fi = _ins(fi, LASTFALSE, """
             proof { assert(self.spo@ =~= old(self).spo@); }""", occurrence=1, expect_count=2)
     fr = rsx.add_spec(fr, G_REMOVE_SPEC)
-    fr = rsx.insert_before_line(fr, "self.spo.remove(", """
+    _use(fr)
+    fr = _ins(fr, "self.spo.remove(", """
         proof {
             let m = self.terms.t2i();
             let k = (s.key(), p.key(), o.key());
@@ -268,10 +307,10 @@ def build_graph(repo, which="all"):
             assert(rot1(t) == [ip, io, is]) by { assert(rot1(t)@ =~= [ip, io, is]@); }
             assert(rot2(t) == [io, is, ip]) by { assert(rot2(t)@ =~= [io, is, ip]@); }
         }""", expect_count=1)
-    fr = rsx.insert_before_line(fr, LASTFALSE, """
+    fr = _ins(fr, LASTFALSE, """
             proof { assert(self.spo@ =~= old(self).spo@); assert(self.view() =~= old(self).view().remove((s.key(), p.key(), o.key()))); }""", occurrence=1, expect_count=2)
     for occ in (0, 1, 2):
-        fr = rsx.insert_before_line(fr, RET, """
+        fr = _ins(fr, RET, """
             proof {
                 lemma_tset3_unknown::<TI>(self.terms.t2i(), self.spo@, (s.key(), p.key(), o.key()));
                 assert(self.view() =~= old(self).view().remove((s.key(), p.key(), o.key())));
@@ -285,8 +324,9 @@ def build_graph(repo, which="all"):
     li = _sig_rewrites(li, info)
     lr = _sig_rewrites(lr, info)
     li = rsx.add_spec(li, G_INSERT_SPEC)
+    _use(li)
     li = _ensure_steps(li, "triples")
-    li = rsx.insert_before_line(li, "self.triples.insert(", """
+    li = _ins(li, "self.triples.insert(", """
         proof {
             let m0 = old(self).terms.t2i();
             let m3 = self.terms.t2i();
@@ -298,8 +338,9 @@ def build_graph(repo, which="all"):
             assert(tkey3::<TI>(m3, k)@ =~= t@);
             lemma_tset3_insert::<TI>(m0, m3, self.triples@, k);
         }""", expect_count=1)
-    lr = rsx.add_spec(lr, G_REMOVE_SPEC.replace("final(self).view() == old(self).view().remove", "final(self).view() == old(self).view().remove"))
-    lr = rsx.insert_before_line(lr, "self.triples.remove(", """
+    lr = rsx.add_spec(lr, G_REMOVE_SPEC)
+    _use(lr)
+    lr = _ins(lr, "self.triples.remove(", """
         proof {
             let m = self.terms.t2i();
             let k = (s.key(), p.key(), o.key());
@@ -308,7 +349,7 @@ def build_graph(repo, which="all"):
             lemma_tset3_remove::<TI>(m, self.triples@, k);
         }""", expect_count=1)
     for occ in (0, 1, 2):
-        lr = rsx.insert_before_line(lr, RET, """
+        lr = _ins(lr, RET, """
             proof {
                 lemma_tset3_unknown::<TI>(self.terms.t2i(), self.triples@, (s.key(), p.key(), o.key()));
                 assert(self.view() =~= old(self).view().remove((s.key(), p.key(), o.key())));
@@ -326,13 +367,13 @@ def build_graph(repo, which="all"):
 
 
 def _ensure_steps(fn, setname):
-    fn = rsx.insert_before_line(fn, "let ip = self.terms.ensure_index(p)?;", """
+    fn = _ins(fn, re.compile(r"let \w+ = self\.terms\.ensure_index\(p\)\?;"), """
         proof {
             lemma_sub_insert(old(self).terms.t2i(), s.key(), is);
             lemma_tset3_grow::<TI>(old(self).terms.t2i(), self.terms.t2i(), self.%s@);
         }
         let ghost m1 = self.terms.t2i();""" % setname, expect_count=1)
-    fn = rsx.insert_before_line(fn, "let io = self.terms.ensure_index(o)?;", """
+    fn = _ins(fn, re.compile(r"let \w+ = self\.terms\.ensure_index\(o\)\?;"), """
         proof {
             lemma_sub_insert(m1, p.key(), ip);
             lemma_sub_trans(old(self).terms.t2i(), m1, self.terms.t2i());
@@ -624,20 +665,20 @@ D_REMOVE_SPEC = """
 
 def _ds_ensure_steps(fn, setname):
     res = "self.terms.reserved()"
-    fn = rsx.insert_before_line(fn, "let ip = self.terms.ensure_index(p)?;", """
+    fn = _ins(fn, re.compile(r"let \w+ = self\.terms\.ensure_index\(p\)\?;"), """
         proof {
             lemma_sub_insert(old(self).terms.t2i(), s.key(), is);
             lemma_tset4_grow::<TI>(old(self).terms.t2i(), self.terms.t2i(), %s, self.%s@);
         }
         let ghost m1 = self.terms.t2i();""" % (res, setname), expect_count=1)
-    fn = rsx.insert_before_line(fn, "let io = self.terms.ensure_index(o)?;", """
+    fn = _ins(fn, re.compile(r"let \w+ = self\.terms\.ensure_index\(o\)\?;"), """
         proof {
             lemma_sub_insert(m1, p.key(), ip);
             lemma_sub_trans(old(self).terms.t2i(), m1, self.terms.t2i());
             lemma_tset4_grow::<TI>(old(self).terms.t2i(), self.terms.t2i(), %s, self.%s@);
         }
         let ghost m2 = self.terms.t2i();""" % (res, setname), expect_count=1)
-    fn = rsx.insert_before_line(fn, "let ig = match g {", """
+    fn = _ins(fn, re.compile(r"let \w+ = match g \{"), """
         proof {
             lemma_sub_insert(m2, o.key(), io);
             lemma_sub_trans(old(self).terms.t2i(), m2, self.terms.t2i());
@@ -745,21 +786,23 @@ def build_dataset(repo):
         fi = _sig_rewrites(fi, info, ds=True)
         fr = _sig_rewrites(fr, info, ds=True)
         fi = rsx.add_spec(fi, D_INSERT_SPEC)
+        _use(fi, ds=True)
         fi = _ds_ensure_steps(fi, setname)
         if fast:
-            fi = rsx.insert_before_line(fi, "self.gspo.insert(", _ds_insert_main_proof(setname, True), expect_count=1)
-            fi = rsx.insert_before_line(fi, LASTFALSE, "\n            proof { assert(self.gspo@ =~= old(self).gspo@); }", occurrence=1, expect_count=2)
+            fi = _ins(fi, "self.gspo.insert(", _ds_insert_main_proof(setname, True), expect_count=1)
+            fi = _ins(fi, LASTFALSE, "\n            proof { assert(self.gspo@ =~= old(self).gspo@); }", occurrence=1, expect_count=2)
         else:
-            fi = rsx.insert_before_line(fi, "self.quads.insert(", _ds_insert_main_proof(setname, False), expect_count=1)
+            fi = _ins(fi, "self.quads.insert(", _ds_insert_main_proof(setname, False), expect_count=1)
         fr = rsx.add_spec(fr, D_REMOVE_SPEC)
-        fr = rsx.insert_before_line(fr, "let Some(is) = self.terms.get_index(s) else {", "        let ghost gk = gname_key(g);", expect_count=1)
+        _use(fr, ds=True)
+        fr = _ins(fr, re.compile(r"let Some\(\w+\) = self\.terms\.get_index\(s\) else \{"), "        let ghost gk = gname_key(g);", expect_count=1)
         if fast:
-            fr = rsx.insert_before_line(fr, "self.gspo.remove(", _ds_remove_main_proof(setname, True), expect_count=1)
-            fr = rsx.insert_before_line(fr, LASTFALSE, "\n            proof { assert(self.gspo@ =~= old(self).gspo@); }" + UNKNOWN4, occurrence=1, expect_count=2)
+            fr = _ins(fr, "self.gspo.remove(", _ds_remove_main_proof(setname, True), expect_count=1)
+            fr = _ins(fr, LASTFALSE, "\n            proof { assert(self.gspo@ =~= old(self).gspo@); }" + UNKNOWN4, occurrence=1, expect_count=2)
         else:
-            fr = rsx.insert_before_line(fr, "self.quads.remove(", _ds_remove_main_proof(setname, False), expect_count=1)
+            fr = _ins(fr, "self.quads.remove(", _ds_remove_main_proof(setname, False), expect_count=1)
         for occ in (0, 1, 2, 3):
-            fr = rsx.insert_before_line(fr, RET, UNKNOWN4, occurrence=occ)
+            fr = _ins(fr, RET, UNKNOWN4, occurrence=occ)
         out.append(specs + _indent_pub(fi) + "\n" + _indent_pub(fr) + "\n}\n")
     spec = open(os.path.join(HERE, "..", "contracts", "store", "spec.rs")).read()
     spec = spec.replace("        ensures r == self.reserved();", "        ensures r == self.reserved();\n\n" + gni)
